@@ -172,11 +172,59 @@ def in_section(src, lineno):
     return depth > 0
 
 
+class PropLock:
+    """Per-property build lock (builders of different properties do not block each other)."""
+    def __init__(self, pid):
+        self.pid = pid
+
+    def __enter__(self):
+        self.f = open(os.path.join(VERIF, "work", ".coq.%s.lock" % self.pid), "w")
+        fcntl.flock(self.f, fcntl.LOCK_EX)
+        return self
+
+    def __exit__(self, *a):
+        fcntl.flock(self.f, fcntl.LOCK_UN)
+        self.f.close()
+
+
+def prop_makefile(pid, dirs):
+    """Write coq/_CoqProject.<pid> + Makefile.<pid> covering Common/, Generated/ and the given
+    directories only, so that a property's build neither scans nor depends on another property's
+    (possibly unfinished) files.  Regenerated only when the file list changes."""
+    files = []
+    for d in sorted(set(["Common", "Generated"] + list(dirs))):
+        dd = os.path.join(COQ, d)
+        if not os.path.isdir(dd):
+            continue
+        for root, _, fns in os.walk(dd):
+            for fn in fns:
+                if fn.endswith(".v"):
+                    files.append(os.path.relpath(os.path.join(root, fn), COQ))
+    files.sort()
+    text = "-Q . Verif\n-arg -w -arg -notation-overridden,-deprecated-hint-without-locality,-deprecated-instance-without-locality\n" + "\n".join(files) + "\n"
+    cp = os.path.join(COQ, "_CoqProject.%s" % pid)
+    mf = os.path.join(COQ, "Makefile.%s" % pid)
+    if not (os.path.exists(cp) and os.path.exists(mf) and open(cp).read() == text):
+        open(cp, "w").write(text)
+        rc, out = run(["coq_makefile", "-f", "_CoqProject.%s" % pid, "-o", "Makefile.%s" % pid], cwd=COQ, timeout=120)
+        if rc != 0:
+            raise Broken("coq_makefile", out)
+    return "Makefile.%s" % pid
+
+
 def coq_make(ctx, targets, timeout=1500):
-    """Full .vo build of the given targets (relative to coq/), e.g. ['C11/Properties.vo']."""
+    """Full .vo build of the given targets (relative to coq/), e.g. ['C11/Properties.vo'].
+    Common/ is built under the global lock (shared by every property); the property's own files
+    under its own lock with its own Makefile."""
+    dirs = sorted({t.split("/")[0] for t in targets if "/" in t} | {ctx.pid})
+    common = sorted("Common/" + f[:-2] + ".vo" for f in os.listdir(os.path.join(COQ, "Common")) if f.endswith(".v"))
     with CoqLock():
-        coq_project()
-        rc, out = run(["make", "-j%d" % NPROC] + targets, cwd=COQ, timeout=timeout)
+        mfc = prop_makefile("Common", [])
+        rc, out = run(["make", "-f", mfc, "-j%d" % NPROC] + common, cwd=COQ, timeout=timeout)
+    if rc == 0:
+        with PropLock(ctx.pid):
+            mf = prop_makefile(ctx.pid, dirs)
+            rc, out = run(["make", "-f", mf, "-j%d" % NPROC] + targets, cwd=COQ, timeout=timeout)
     open(os.path.join(ctx.work, "make.log"), "w").write(out)
     if rc != 0:
         m = re.search(r'File "\./([^"]+)", line (\d+)', out)
